@@ -58,6 +58,10 @@ type Sim struct {
 	simEnd   time.Duration
 
 	passthrough atomic.Bool
+	// Timed mode (race detection): seams do not park; they sleep a latency derived from
+	// hash(seed, key) on the fake clock and take the world's TimedDecide answer.
+	Timed       bool
+	TimedDecide func(p *Parked) (Decision, time.Duration)
 	faultsOff   atomic.Bool
 
 	Faults     map[string]int // fault kinds actually fired
@@ -99,6 +103,26 @@ func (s *Sim) ShuttingDown() bool { return s.passthrough.Load() }
 func (s *Sim) Seam(ctx context.Context, party, name, digest string, info any) (Decision, error) {
 	if s.passthrough.Load() {
 		return Decision{Kind: "shutdown"}, nil
+	}
+	if s.Timed {
+		p := &Parked{Key: party + "|" + name + "|" + digest, Party: party, Name: name, Digest: digest, Info: info}
+		d, lat := Decision{Kind: "ok"}, time.Duration(HashChoice(s.Seed, p.Key, 2000))*time.Millisecond
+		if s.TimedDecide != nil {
+			d, lat = s.TimedDecide(p)
+		}
+		if ctx != nil {
+			select {
+			case <-ctx.Done():
+				return Decision{Kind: "ctx"}, ctx.Err()
+			case <-time.After(lat):
+			}
+		} else {
+			time.Sleep(lat)
+		}
+		if s.passthrough.Load() {
+			return Decision{Kind: "shutdown"}, nil
+		}
+		return d, nil
 	}
 	s.mu.Lock()
 	base := party + "|" + name + "|" + digest
